@@ -345,6 +345,147 @@ class Flow:
             return 'RUnknown "%s: %s"' % (r, "no caller in the crate" if not uniq else "several sources")
         return 'RUnknown "%s"' % r
 
+
+    # ---- provenance of a PATH-valued expression (for the filesystem sinks) ---------------------------------
+    PATH_WRAPPERS = r"(\.clone\(\)|\.as_path\(\)|\.to_path_buf\(\)|\.as_ref\(\)|\.to_owned\(\))$"
+
+    def strip_path(self, t):
+        t = norm(t)
+        while True:
+            u = t
+            while u.startswith("&"):
+                u = u[1:]
+            u = re.sub(self.PATH_WRAPPERS, "", u)
+            if u == t:
+                return t
+            t = u
+
+    def impl_of(self, label, pos):
+        best = None
+        src = self.srcs[label]
+        for m in re.finditer(r"\bimpl\b[^{;]*\{", src):
+            ce = match_close(src, m.end() - 1)
+            if m.start() <= pos <= ce and (best is None or m.start() > best[0]):
+                best = (m.start(), ce)
+        return best
+
+    def returned_paths(self, caller, name):
+        """provenance of every `Ok(<expr>)` the method `name` of the caller's own impl block returns (self.locate_file(..))"""
+        ext = self.impl_of(caller.label, caller.start)
+        if ext is None:
+            return None
+        fs = [f for f in self.fns if f.label == caller.label and f.name == name and ext[0] <= f.start <= ext[1]]
+        if len(fs) != 1:
+            return None
+        fn, body, out = fs[0], fs[0].body(), []
+        for m in re.finditer(r"\bOk\s*\(", body):
+            if re.search(r"\blet\s+$", body[:m.start()]):
+                continue                                  # `if let Ok(x) = ...`: a pattern, not a returned value
+            cl = match_close(body, m.end() - 1)
+            out.append(self.path_prov(fn, body[m.end():cl], 1))
+        return out or None
+
+    # a path provenance is a python tuple: ("root", R) | ("join", R, A) | ("parent", p) | ("any", [p..]) | ("unk", why)
+    def path_prov(self, fn, text, depth=0):
+        t = self.strip_path(text)
+        if depth > 6:
+            return ("unk", "%s (call chain too deep)" % t[:60])
+        if t == "self.cache":
+            return ("root", "RCacheDir")
+        if t == "self.tmp":
+            return ("root", "RTmpDir")
+        if not re.match(r"\w+$", t):
+            return ("unk", t[:80])
+        body = fn.body()
+        if re.search(r"\bfor\s+%s\s+in\s+(&\s*)?self\.paths(\.iter\(\))?\s*\{" % re.escape(t), body):
+            return ("root", "RSymbolDir")
+        binds = re.findall(r"\blet\s+(?:mut\s+)?%s\s*(?::[^=;]*)?=\s*([^;]*);" % re.escape(t), body)
+        if len(binds) > 1:
+            return ("unk", "%s is bound more than once in fn %s" % (t, fn.name))
+        if binds:
+            b = binds[0]
+            m = re.match(r"\s*([\w.]+)\s*\.join\s*\(", b)
+            if m:
+                cl = match_close(b, m.end() - 1)
+                if norm(b[cl + 1:]) == "":
+                    args = split_top(b[m.end():cl])
+                    if len(args) == 1:
+                        return ("join", self.root_prov(fn, m.group(1)), self.arg_prov(fn, args[0]))
+            m = re.match(r"\s*(\w+)\s*\.parent\(\)", b)
+            if m:
+                return ("parent", self.path_prov(fn, m.group(1), depth + 1))
+            m = re.match(r"\s*self\s*\.\s*(\w+)\s*\(", b)
+            if m:
+                rs = self.returned_paths(fn, m.group(1))
+                if rs:
+                    return ("any", rs)
+            return ("unk", "%s = %s" % (t, norm(b)[:70]))
+        idx = [i for i, (pn, pt) in enumerate(fn.params) if pn == t]
+        if idx:
+            calls = self.callers(fn.name)
+            provs = []
+            for caller, args in calls:
+                if len(args) != len(fn.params):
+                    return ("unk", "%s: call of %s with %d arguments" % (t, fn.name, len(args)))
+                provs.append(self.path_prov(caller, args[idx[0]], depth + 1))
+            if provs:
+                return ("any", provs)
+            return ("unk", "%s: parameter of fn %s, which has no caller in the crate" % (t, fn.name))
+        return ("unk", "%s: no binding found in fn %s" % (t, fn.name))
+
+    @staticmethod
+    def flatten(p):
+        """-> (number of .parent() applied, [leaf provenances]) ; leaves are root / join / unk"""
+        if p[0] == "parent":
+            n, leaves = Flow.flatten(p[1])
+            return n + 1, leaves
+        if p[0] == "any":
+            parts = [Flow.flatten(x) for x in p[1]]
+            ns = {n for n, _ in parts}
+            if len(ns) != 1:
+                return 0, [("unk", "alternatives with different numbers of .parent()")]
+            leaves = []
+            for _, ls in parts:
+                for l in ls:
+                    if l not in leaves:
+                        leaves.append(l)
+            return ns.pop(), leaves
+        return 0, [p]
+
+    SINKS = [r"\bfs\s*::\s*\w+\s*\(", r"\bFile\s*::\s*(?:create|open|create_new|options)\s*\(", r"\bOpenOptions\b[^;]*?\.open\s*\(",
+             r"\bNamedTempFile\s*::\s*\w+\s*\(", r"\btempfile\s*::\s*\w+\s*\(", r"\.persist(?:_noclobber)?\s*\(",
+             r"\bSymbolFile\s*::\s*from_file\s*\(", r"\bPathBuf\s*::\s*from\s*\(", r"\bPath\s*::\s*new\s*\("]
+    PROBES = r"([\w.]+)\s*\.\s*(exists|is_file|is_dir|read_dir|canonicalize|metadata|symlink_metadata)\s*\(\s*\)"
+
+    def sinks(self):
+        """every call that opens / creates / removes / renames / probes a file system path, with the provenance of the path"""
+        out = []
+        for label, src in self.srcs.items():
+            hits = []
+            for pat in self.SINKS:
+                for m in re.finditer(pat, src):
+                    op = m.end() - 1
+                    cl = match_close(src, op)
+                    hits.append((m.start(), norm(src[m.start():cl + 1]), split_top(src[op + 1:cl])))
+            for m in re.finditer(self.PROBES, src):
+                if re.search(r"\|\s*%s\s*\|\s*$" % re.escape(m.group(1)), src[:m.start()]):
+                    continue                              # `|m| m.is_file()`: a Metadata, not a path
+                hits.append((m.start(), norm(m.group(0)), [m.group(1)]))
+            for pos, text, args in sorted(hits):
+                fn = self.enclosing(label, pos)
+                if fn is None:
+                    continue                              # a `use` line or an attribute
+                if text.startswith(("fs::", "File::", "PathBuf::", "Path::")) and src[max(0, pos - 4):pos].endswith("use "):
+                    continue
+                if not args:
+                    out.append((label, fn.name, text, ("unk", "no path argument")))
+                    continue
+                # rename / copy / hard_link take two paths
+                n = 2 if re.match(r"fs::(rename|copy|hard_link|symlink)", text) else 1
+                for a in args[:n]:
+                    out.append((label, fn.name, text, self.path_prov(fn, a)))
+        return out
+
     def sites(self):
         out = []
         for label, src in self.srcs.items():
@@ -382,7 +523,8 @@ def main():
         sys.stderr.write(__doc__)
         sys.exit(2)
     repo, outdir = sys.argv[1], sys.argv[2]
-    sites = Flow(repo).sites()
+    fl = Flow(repo)
+    sites = fl.sites()
     if not sites:
         die("no consumer join sites found (the extraction is broken)")
     def strip(term):
@@ -399,6 +541,26 @@ def main():
          "Definition g_consumer_joins : list g_site := ["]
     o.append(";\n".join('  {| s_file := "%s"; s_fn := "%s"; s_text := "%s";\n     s_root := %s; s_arg := %s; s_why := "%s" |}'
                         % (a, b, c.replace('"', '""'), strip(r), strip(g), whys(r, g).replace('"', "'")) for a, b, c, r, g in sites))
+    o.append("].")
+    sinks = fl.sinks()
+    o += ["", "(* every call of the consumers that opens / creates / removes / probes a file system path, with the provenance of",
+          "   that path: a root, the result of one of the joins above, the parent of such a path, or one of several *)",
+          "Definition g_fs_sinks : list g_sink := ["]
+    def leaf_term(l):
+        if l[0] == "root":
+            return "PRoot %s" % l[1], ""
+        if l[0] == "join":
+            return "PJoined (%s) (%s)" % (strip(l[1]), strip(l[2])), whys(l[1], l[2])
+        return "PUnknownPath", l[1]
+
+    rows = []
+    for a_, b_, c_, pp in sinks:
+        n, leaves = Flow.flatten(pp)
+        terms = [leaf_term(l) for l in leaves]
+        why = "; ".join(w for _, w in terms if w).replace('"', "'")
+        rows.append('  {| k_file := "%s"; k_fn := "%s"; k_text := "%s"; k_parents := %d;\n     k_paths := [%s]; k_why := "%s" |}'
+                    % (a_, b_, c_.replace('"', '""'), n, "; ".join(t for t, _ in terms), why))
+    o.append(";\n".join(rows))
     o.append("].")
     o += ["", "(* the same table without Coq strings (fn name as bytes), for the extracted driver *)",
           "Definition g_flow_table : list (list Z * g_root * g_arg) := ["]
